@@ -1,0 +1,66 @@
+// SPDX-FileCopyrightText: 2026 The Pion community <https://pion.ly>
+// SPDX-License-Identifier: MIT
+
+//go:build verif
+
+package h264reader
+
+// Contracts for the contract-based verification in /verif (build tag verif); comments only.
+
+// Assumed contract on io.Reader: Read returns a count within the buffer (the io.Reader
+// contract) and touches only the buffer it is given.
+//@ func (io.Reader).Read
+//@ trusted
+//@ ghost rdpos += n
+//@ ensures 0 <= n && n <= len(p)
+//@ modifies elems(p)
+
+//@ field H264Reader.stream props C34 C37 writers NewReader
+//@ field H264Reader.includeSEI props C34 C37 writers NewReader, WithIncludeSEI$1
+//@ field H264Reader.tmpReadBuf props C34 C37 writers NewReader
+//@ field H264Reader.nalBuffer props C34 C37 writers NewReader, (*H264Reader).NextNAL, (*H264Reader).processByte, (*H264Reader).bitStreamStartsWithH264Prefix
+//@ field H264Reader.readBuffer props C34 C37 writers NewReader, (*H264Reader).read
+//@ field H264Reader.countOfConsecutiveZeroBytes props C34 C37 writers (*H264Reader).processByte
+//@ field H264Reader.nalPrefixParsed props C34 C37 writers NewReader, (*H264Reader).NextNAL
+
+//@ func (*H264Reader).read
+//@ props C34 C37
+//@ requires reader != nil && reader.stream != nil && numToRead >= 0
+//@ ensures e == nil ==> len(data) <= numToRead
+//@ ensures e != nil ==> data == nil
+//@ loop 0 invariant reader.stream != nil
+
+//@ func (*H264Reader).bitStreamStartsWithH264Prefix
+//@ props C34 C37
+//@ requires reader != nil && reader.stream != nil
+
+//@ func (*H264Reader).processByte
+//@ props C34 C37
+//@ requires reader != nil
+//@ ensures nalFound ==> len(reader.nalBuffer) >= 1
+//@ ensures reader.includeSEI == old(reader.includeSEI) && reader.stream == old(reader.stream)
+//@ modifies reader.nalBuffer, reader.countOfConsecutiveZeroBytes
+
+//@ func newNal
+//@ props C34 C37
+//@ ensures result != nil && fresh(result) && len(result.Data) == len(data) && sameptr(result.Data, data)
+//@ modifies nothing
+
+//@ func (*NAL).parseHeader
+//@ props C34 C37
+//@ requires h != nil && len(h.Data) >= 1
+//@ ensures h.UnitType == NalUnitType(h.Data[0] & 0x1F) && h.RefIdc == (h.Data[0] & 0x60) >> 5 && h.ForbiddenZeroBit == (h.Data[0] & 0x80 != 0)
+//@ ensures len(h.Data) == old(len(h.Data)) && sameptr(h.Data, old(h.Data))
+//@ modifies h.ForbiddenZeroBit, h.RefIdc, h.UnitType
+
+// No panic on any stream; a returned unit has at least its header byte, its
+// parsed header fields are those of that byte, and with SEI inclusion off an SEI
+// unit is never returned.
+//@ func (*H264Reader).NextNAL
+//@ props C34 C37
+//@ requires reader != nil && reader.stream != nil
+//@ observe old(reader.includeSEI)
+//@ ensures err == nil ==> ret0 != nil && len(ret0.Data) >= 1
+//@ ensures err == nil ==> ret0.UnitType == NalUnitType(ret0.Data[0] & 0x1F) && ret0.RefIdc == (ret0.Data[0] & 0x60) >> 5
+//@ ensures err == nil && !old(reader.includeSEI) ==> ret0.UnitType != NalUnitTypeSEI
+//@ loop 0 invariant reader.stream != nil && reader.includeSEI == old(reader.includeSEI)
